@@ -6,6 +6,8 @@ V = '/verif'
 props = [json.loads(l) for l in open(f'{V}/properties.jsonl')]
 ids = [p['id'] for p in props]
 na = json.load(open(f'{V}/tools/na.json'))
+# only checks vetted by the maintainer (clean in both tiers, sensitivity-tested) are claimed
+vetted = set(json.load(open(f'{V}/tools/claim.json')))
 checks = []
 claimed = set()
 for pid in ids:
@@ -13,7 +15,7 @@ for pid in ids:
     if not os.path.exists(f):
         continue
     pc = json.load(open(f))
-    if pc.get('disabled'):
+    if pc.get('disabled') or pid not in vetted:
         continue
     claimed.add(pid)
     hs = pc['harnesses']
